@@ -86,7 +86,7 @@ fn populate_ops(cs: u32) -> Vec<Op> {
 pub fn run(tier: Tier, seed: u64) -> i32 {
     let hp = prop();
     let mut rep = Report::new(hp.id, tier, seed, hp.level, hp.rule);
-    rep.rule.push_str("; plus scripted first mutations: on a populated, cleanly unmounted volume of every width and every initial status byte, each of 24 single operations (truncate inside the last cluster / at a boundary / to zero / at the end, overwrite, append, write to an empty file, timestamps only, read only, create, mkdir, remove, rename, move, failing calls) as the only thing a fresh session does");
+    rep.rule.push_str("; plus scripted first mutations: on a populated, cleanly unmounted volume of every width and every initial status byte, each of 24 single operations (truncate inside the last cluster / at a boundary / to zero / at the end, overwrite, append, write to an empty file, timestamps only, read only, create, mkdir, remove, rename, move, failing calls) as the only thing a fresh session does; plus the same scripts with a transient storage fault at EVERY device call of the first mutation (the faulted call is not judged), followed by a second mutation after which the bit must be on the disk");
     for a in &hp.assumptions {
         rep.assume(a);
     }
@@ -121,6 +121,47 @@ pub fn run(tier: Tier, seed: u64) -> i32 {
     });
     b.exhaustive = true;
     rep.add(b);
+    // transient storage fault during the first mutation of a session, at every device call of it; the session then
+    // carries on with a second mutation. The faulted call itself is not judged (it was cut short and reported the
+    // error), but once a later modifying call has succeeded the bit has to be on the disk.
+    if !rep.failed() {
+        let mut fvols: Vec<VolCfg> = [1usize, 3, 8, 12].iter().map(|p| VolCfg::from_preset(*p)).collect();
+        fvols.push(VolCfg::from_gen_preset(5));
+        if tier == Tier::Thorough {
+            fvols.push(VolCfg::from_preset(5));
+            fvols.push(VolCfg::from_preset(13));
+            fvols.push(VolCfg::from_gen_preset(0));
+        }
+        let kmax: u16 = tier.pick(700, 5000);
+        let fb: Block = run::run_indexed("transient_fault_during_first_mutation_then_second_mutation", (fvols.len() * n_scripts) as u64, |i, blk| {
+            let v = &fvols[i as usize / n_scripts];
+            let cs = v.cluster_size();
+            let (name, script) = first_mutation_scripts(cs).swap_remove(i as usize % n_scripts);
+            for k in 0..kmax {
+                let mut ops = populate_ops(cs);
+                ops.push(Op::FaultNext { k, hold: script.len() as u8 });
+                ops.extend(script.iter().cloned());
+                ops.push(Op::CreateFile { via: 0, path: "zz after the fault".into(), keep: 2 });
+                ops.push(Op::Write { h: 1, len: 10, seed: 9 });
+                ops.push(Op::CloseFile { h: 1 });
+                let case = Case { vol: v.clone(), ops };
+                let mut out = hist::eval_case(hp_ref, &case);
+                let fired = out.classes.contains_key("cases_with_fault_fired");
+                out.nontrivial = fired;
+                out.hash = run::hash_str(&format!("fault|{}|{}|{:?}", name, k, v));
+                blk.record(&out, || serde_json::json!({"script": name, "fault_at_device_call": k, "vol": v}));
+                if let Some(m) = out.violation {
+                    return Some(run::Failure { message: format!("transient fault at device call {} of first mutation '{}': {}", k, name, m), case: serde_json::to_value(&case).unwrap(), kind: "history".into() });
+                }
+                if !fired {
+                    // k is past the last device call of the scripted operation: every position has been enumerated
+                    break;
+                }
+            }
+            None
+        });
+        rep.add(fb);
+    }
     if !rep.failed() {
         rep.add(hist::random_block(&hp, "random_histories", seed, tier.pick(hp.quick_cases, hp.thorough_cases)));
     }
